@@ -485,7 +485,11 @@ func (g *chainGen) buildLevel(depth int, initial Files, signers []*TestKey, name
 				p = prods
 				lv.Feat = append(lv.Feat, "sublayout")
 				lv.Feat = append(lv.Feat, sub.Feat...)
-				if cfg.TwinSubPct > 0 && k+1 < honest && rng.Chance(cfg.TwinSubPct) {
+				if cfg.TwinSubPct > 0 && k+1 < honest && !g.oneSub && rng.Chance(cfg.TwinSubPct) {
+					// (never in a chain whose sublayout carries an inspection of its own: the library resolves
+					// the pieces of evidence of a step in Go map order, so with a failing twin WHICH commands
+					// ran before the rejection is not determined, and no property says it should be - the
+					// thorough tier, which repeats every case, alarmed on exactly that; see oneSub)
 					// the NEXT functionary signs the very same sublayout; what it vouches for is what lies
 					// in ITS directory <step>.<its id> - verified on its own, whatever the first one's
 					// directory held (seeded changes c05-identical-sublayout-summary-reused,
